@@ -106,6 +106,7 @@ def valuesOfCorrectTypeStep (_ : SV) (_ : QueryDoc) (e : Event) : List RErr :=
       | .int =>
         if !defOneOf dfn [str "Int", str "Float", str "ID"] then unexpectedIf true
         else if defOneOf dfn [str "Int"] then unexpectedIf (parseIntErr 32 v.raw != .none)   -- Int is 32 bits
+        else if defOneOf dfn [str "Float"] then unexpectedIf (floatErr v.raw)                -- an integer literal for a Float is a finite double too
         else unexpectedIf false
       | .float =>
         if !defOneOf dfn [str "Float"] then unexpectedIf true
